@@ -920,6 +920,11 @@ func (p *prover) obligationsOf(scope func(ssa.Value) bool) []boundsObl {
 				if x.Low != nil {
 					out = append(out, boundsObl{in, "slice low <= high", lo.add(hi, -1)})
 					out = append(out, boundsObl{in, "slice low >= 0", newLin(0).add(lo, -1)})
+				} else if x.High != nil && !isUnsigned(x.High.Type()) {
+					// b[:n] with a computed n (e.g. len(b)-1 on an empty b) panics when n is negative
+					if _, isConst := x.High.(*ssa.Const); !isConst {
+						out = append(out, boundsObl{in, "slice high >= 0", newLin(0).add(hi, -1)})
+					}
 				}
 			case *ssa.IndexAddr:
 				if !scope(x.X) {
